@@ -114,7 +114,10 @@ def run_trace(case, cls=scripted.Scripted, extra_kwargs=None):
     t = -2 if case.get('tneg') else 1
     script = list(zip(hist, var))
     hk = case.get('hook_exc', True)
-    m = scripted.make_scripted(span, {1: script}, hk if opts['preHook'] == 'exc' else False, hk if opts['postHook'] == 'exc' else False, cls=cls)
+    if case.get('pre_nan'):
+        script = [(script[0][0], 3)] + script[1:]
+    benign = 'nan-write' if case.get('pre_nan') else ('warn' if case.get('benign_warn') else False)  # hooks that only warn: no effect unless warnings are errors (errors='raise' with catch_first_error)
+    m = scripted.make_scripted(span, {1: script}, hk if opts['preHook'] == 'exc' else benign, hk if opts['postHook'] == 'exc' else (benign if benign == 'warn' else False), cls=cls)
     m.A = [1.0, 2.0, 3.0]
     m.B = [-1.0, -2.0, -3.0]
     m.X = [7.0, 8.0, 9.0]
@@ -128,6 +131,10 @@ def run_trace(case, cls=scripted.Scripted, extra_kwargs=None):
               errors=opts['errors'], catch_first_error=opts['cfe'])
     if extra_kwargs:
         kw.update(extra_kwargs)
+    if case.get('numpy_opts'):
+        # options as NumPy scalars (e.g. read out of an array of settings); the tolerance also as a 0-d array
+        kw.update(min_iter=np.int64(kw['min_iter']), max_iter=np.int32(kw['max_iter']), tol=np.array(kw['tol'], dtype=np.float32), catch_first_error=np.bool_(kw['catch_first_error']))
+        t = np.int64(t)
     entry = case.get('entry', 'solve_t')
     if entry == 'solve_period':
         res, cause, _ = refsolve.call_outcome(m.solve_period, 1, **kw)
@@ -210,9 +217,16 @@ def run_traces(block, tier, acc, cls=scripted.Scripted, extra_kwargs=None, post=
                         post(case, m, acc)
             if first:
                 # the other entry points forward every option unchanged; a failing hook may raise any exception type
-                extras = [dict(entry='solve_period'), dict(entry='solve')] + [dict(stacked=k) for k in STACKED] + [dict(stacked='tracer', entry='solve')]
+                extras = [dict(entry='solve_period'), dict(entry='solve')] + [dict(stacked=k) for k in STACKED] + [dict(stacked='tracer', entry='solve'), dict(numpy_opts=True), dict(numpy_opts=True, entry='solve')]
                 if opts['preHook'] == 'exc' or opts['postHook'] == 'exc':
                     extras += [dict(hook_exc='SolutionError'), dict(hook_exc='NonConvergenceError'), dict(hook_exc='KeyError')]
+                    if opts['errors'] == 'raise' and opts['cfe']:
+                        extras += [dict(hook_exc='warn')]  # a hook that warns IS a failing hook when warnings are errors
+                if hist and hist[0] == 'nans' and opts['pre'] == 'finite' and opts['preHook'] == 'ok' and opts['postHook'] == 'ok':
+                    # the non-finite value of pass 1 was put there by the pre-solution hook (the starting state, read before the hook, was finite)
+                    extras += [dict(pre_nan=True), dict(pre_nan=True, entry='solve')]
+                if opts['preHook'] != 'exc' and opts['postHook'] != 'exc' and not (opts['errors'] == 'raise' and opts['cfe']):
+                    extras += [dict(benign_warn=True), dict(benign_warn=True, entry='solve_period')]  # ... and changes nothing otherwise
                 for extra in extras:
                     case = dict({'kind': 'trace', 'opts': opts, 'hist': hist, 'variants': var, 'prev': 0, 'tneg': False}, **extra)
                     acc.evaluations += 1
@@ -228,8 +242,10 @@ def run_traces(block, tier, acc, cls=scripted.Scripted, extra_kwargs=None, post=
                     acc.nontrivial += 1
                     if extra.get('entry') == 'solve' and want['result'] == 'ValueError':
                         want = dict(want, untouched=True)
+                    if extra.get('hook_exc') == 'warn' and want['cause'] == 'exception' and (opts['preHook'] == 'exc' or (opts['postHook'] == 'exc' and want['postRuns'] == 1)):
+                        want = dict(want, cause='warning')  # the failure is the hook's own (not an exception of an evaluation pass before it)
                     if want != obs:
-                        acc.violation(trace_key(case, want, obs) + ':' + (extra.get('stacked') or extra.get('entry') or 'hook-' + extra['hook_exc']), case, want, obs,
+                        acc.violation(trace_key(case, want, obs) + ':' + (extra.get('stacked') or ('numpy-scalars' if extra.get('numpy_opts') else None) or ('benign-hook-warning' if extra.get('benign_warn') else None) or ('pre-hook-writes-nan' if extra.get('pre_nan') else None) or extra.get('entry') or 'hook-' + str(extra['hook_exc'])), case, want, obs,
                                       'solve_t disagrees with the documented state machine')
             first = False
         acc.sample({'opts': opts, 'hist': hist, 'expect': {k: s[k] for k in ('result', 'status', 'iters', 'k')}}, limit=3)
@@ -248,6 +264,9 @@ def run_offset_case(case):
         m[name] = [10.0 * (i + 1) + j for j in range(n)]
     before = scripted.snapshot(m)
     init = {name: m[name].copy() for name in m.names}
+    if case.get('numpy_args'):
+        # the same request spelled with NumPy scalars (what indexing an integer array yields) is the same request
+        t, offset = np.int64(t), np.int32(offset)
     if route == 'solve_period':
         res, cause, _ = refsolve.call_outcome(m.solve_period, span[pos], tol=scripted.TOL, offset=offset)
     else:
@@ -302,6 +321,11 @@ def run_offsets(acc, tier):
                 acc.nontrivial += 1
                 for key, exp, obs, what in run_offset_case(case):
                     acc.violation(key, case, exp, obs, what)
+                case3 = dict(case, numpy_args=True)
+                acc.evaluations += 1
+                acc.nontrivial += 1
+                for key, exp, obs, what in run_offset_case(case3):
+                    acc.violation(key + ':numpy-scalars', case3, exp, obs, what)
                 case2 = dict(case, reject=True)
                 acc.evaluations += 1
                 acc.nontrivial += 1
